@@ -23,6 +23,11 @@ def main():
     if r.returncode != 0:
         print("patch does not apply: " + r.stderr); return 2
     res = {}
+    # evidence files must describe runs on the unchanged tree: keep them aside and put them back
+    saved = {}
+    for p in props:
+        ef = os.path.join(V, "evidence", p + ".json")
+        saved[ef] = open(ef).read() if os.path.exists(ef) else None
     try:
         for p in props:
             for sd in seeds:
@@ -43,6 +48,11 @@ def main():
                     print("    ", w[:300])
     finally:
         subprocess.run(["git", "-C", "/repo", "checkout", "--", "."])
+        for ef, txt in saved.items():
+            if txt is not None:
+                open(ef, "w").write(txt)
+            elif os.path.exists(ef):
+                os.remove(ef)
         sys.path.insert(0, os.path.join(V, "tools"))
         import common
         common.build_lib("plain")
